@@ -1,6 +1,83 @@
+(** * Props/C05.v — The transaction pool is always a valid, minable continuation of the tip.
+    Only the property theorems; each is closed by [exact] and followed by Print Assumptions.
+    All statements are about the pool model [Chain/Pool.v] (the repaired code) that the
+    harness validates against the real chain.Manager and coreutils.MineBlock after every
+    call.  A history [ops] is any list of v1/v2 submissions (a v2 submission carries whatever
+    rebasing produced), block steps (any sequence of per-block proof updates, any re-offered
+    lists, any new ledger) and queries, from an empty pool.  The transactions that occur
+    come from a universe [U] in which an id determines the transaction up to proof data
+    ([ids_inj]: ids are hashes). *)
 From Coq Require Import NArith List.
 From stdpp Require Import gmap.
 From CV Require Import Chain.Pool Chain.PoolProofs.
-Theorem C05_placeholder : ∀ L mw p, is_Some (ms (revalidate L mw p)).
-Proof. exact revalidate_ms. Qed.
-Print Assumptions C05_placeholder.
+Import ListNotations.
+Open Scope N_scope.
+
+(** Every prefix of PoolTransactions ++ V2PoolTransactions is sequentially valid for the
+    ledger of the tip: inputs exist or were created earlier in the sequence, nothing is
+    spent twice, v2 leaf indices and proofs are the tip's. *)
+Theorem C05_reported_pool_prefix_valid :
+  ∀ mw U L0 ops, ids_inj U → Forall (op_in U) ops →
+    let s := nrun mw L0 ops in
+    ∀ pre, pre `prefix_of` reported mw s → valid_seq s.1 pre.
+Proof. exact reported_pool_prefix_valid. Qed.
+Print Assumptions C05_reported_pool_prefix_valid.
+
+(** The block MineBlock assembles (v1 prefix, its own arbitrary-data transaction, v2 prefix,
+    up to the weight limit) has a valid body — under law L3 about go.sia.tech/core (a
+    sequentially valid, in-weight list makes a valid block body), which the harness
+    re-checks on every run. *)
+Theorem C05_mined_block_accepted :
+  ∀ (body_ok : ledger → list atx → bool) (mw : N),
+    (∀ L ts, valid_seq L ts → total_weight ts ≤ mw → body_ok L ts = true) →
+    ∀ U L0 ops arb v2a, ids_inj U → Forall (op_in U) ops →
+      let s := nrun mw L0 ops in
+      a_ins arb = [] → a_outs arb = [] → (v2a = true → static_ok (l_h s.1) arb = true) →
+      a_weight arb ≤ mw →
+      body_ok s.1 (mine_block mw v2a arb (pool_transactions s.1 mw s.2) (v2_pool_transactions s.1 mw s.2)) = true.
+Proof. exact mined_block_accepted. Qed.
+Print Assumptions C05_mined_block_accepted.
+
+(** Retention: after any block step from a queried state whose pool is not full, every
+    reported transaction of [goods] is still reported — [goods] are the transactions whose
+    height window contains the new height and whose every input, after the proof moves of
+    the path ([moved]: dropped when a confirmed input's leaf leaves the accumulator, i.e. is
+    un-created, also transiently), is an unspent element of the new ledger (so neither
+    spent nor un-created, and the transaction itself not confirmed) or an output of an
+    earlier such transaction (for a revision: with a revision number above the ledger's).
+    Hypothesis: a re-offered v1 transaction of the last reverted block that re-enters the
+    pool spends nothing a pooled v2 transaction uses (v1 transactions are validated first;
+    such a transaction was confirmed below the old tip; re-checked by the harness at every
+    tip change). *)
+Theorem C05_retention :
+  ∀ mw U L0 ops steps lr L',
+    ids_inj U → Forall (op_in U) ops → op_in U (OChain steps lr L') →
+    let s := nrun mw L0 ops in
+    let q := revalidate s.1 mw s.2 in
+    let p1 := chain_step steps lr q in
+    weight q < mw * 10 →
+    (∀ x u i, x ∈ last_rev p1 → x ∈ pool_transactions L' mw p1 →
+              u ∈ v2txns q → i ∈ a_ins u → is_ref i = false → i_el i ∉ spends x) →
+    ∀ t, t ∈ goods L' steps (txns q ++ v2txns q) → t ∈ reported mw (L', p1).
+Proof. exact retention. Qed.
+Print Assumptions C05_retention.
+
+(** Finding F9, kept about the code before the repair ([chain_step_prefix]: the leaf test
+    ran before the ephemeral sentinel was considered): one unrelated block drops the pooled
+    child of an unconfirmed parent, although it is in [goods]; the repaired step keeps it. *)
+Theorem C05_retention_prefix_refuted :
+  let s := nrun exMW exL ex_ops in
+  let q := revalidate s.1 exMW s.2 in
+  tC ∈ goods exL' ex_step (txns q ++ v2txns q) ∧
+  tC ∈ reported exMW (exL', chain_step ex_step None q) ∧
+  tC ∉ reported exMW (exL', chain_step_prefix ex_step None q).
+Proof. exact retention_prefix_refuted. Qed.
+Print Assumptions C05_retention_prefix_refuted.
+
+(** Finding F19, kept about MineBlock before the repair (its own transaction not counted):
+    a pool prefix of weight 95 under a limit of 100 gives a block of weight 107. *)
+Theorem C05_mined_block_prefix_refuted :
+  total_weight (mine_block_prefix 100 true tArb [] [tBig]) = 107 ∧
+  total_weight (mine_block 100 true tArb [] [tBig]) = 12.
+Proof. exact mined_block_prefix_refuted. Qed.
+Print Assumptions C05_mined_block_prefix_refuted.
